@@ -15,6 +15,11 @@ GROUPS = {"C02": "ChanTraceR02.cfg", "C01": "ChanTraceR01.cfg", "C05": "ChanTrac
 AMT_CLASS = {100000: "dust", 400000: "dust-edge", 600000: "big"}
 
 
+CONNECT_STYLES = ["BEST_BLOCK_FIRST", "TRANSACTIONS_FIRST", "FULL_BLOCK_VIA_LISTEN", "BEST_BLOCK_FIRST_SKIPPING_BLOCKS",
+                  "TRANSACTIONS_FIRST_SKIPPING_BLOCKS", "TRANSACTIONS_DUPLICATIVELY_FIRST_SKIPPING_BLOCKS",
+                  "HIGHLY_REDUNDANT_TRANSACTIONS_FIRST_SKIPPING_BLOCKS", "REPLAYED_FULL_BLOCK_VIA_LISTEN"]
+
+
 def convert_script(s, chan_type, rng):
     """TLC behaviour (user-level ops of ChanMC) -> channet script."""
     ops = []
@@ -272,7 +277,11 @@ def run_check(pid, tier, seed, mc_cfgs, profiles, thorough_profiles, assumptions
     first_trace = None
     for bi, (bname, args, nodes) in enumerate(batches):
         tpath = os.path.join(wd, "trace-%s.ndjson" % bname)
-        vlib.run_bin(bins["channet"], args + ["--seed", seed * 100 + bi, "--out", tpath], discard_stdout=True, timeout=3000)
+        # the functional-test chain style (how blocks are handed to a node) is otherwise drawn from process-random
+        # state: fix it per batch so that a replay file reproduces its run
+        style = CONNECT_STYLES[(seed + bi) % len(CONNECT_STYLES)]
+        vlib.run_bin(bins["channet"], args + ["--seed", seed * 100 + bi, "--out", tpath], discard_stdout=True, timeout=3000,
+                     env={"LDK_TEST_CONNECT_STYLE": style})
         summ = json.load(open(tpath + ".summary"))
         vlib.log("[channet] %s %s" % (bname, summ))
         if summ["setup_failures"]:
@@ -301,7 +310,7 @@ def run_check(pid, tier, seed, mc_cfgs, profiles, thorough_profiles, assumptions
             if vlib.report_violation(pid, "%s-run%s" % (bname, fl["run"]), {
                     "property": pid, "kind": fl["kind"], "invariant": fl["inv"], "guard_groups": sorted(groups),
                     "first_unmatched_event": ev, "position_in_run": fl["pos_in_run"],
-                    "batch": bname, "engine_args": args + ["--seed", seed * 100 + bi],
+                    "batch": bname, "engine_args": args + ["--seed", seed * 100 + bi], "env": {"LDK_TEST_CONNECT_STYLE": style},
                     "trace_of_run": fl["run_events"], "last_state": fl["last_state"],
                     "how_to_replay": "harness/target/debug/channet <engine_args> --out t.ndjson ; "
                                      "tools/tv.sh ChanTrace t.ndjson   (run id = `run` field)"}, key=key):
